@@ -470,6 +470,20 @@ def resendOK (chips : List (Nat × Nat)) (a : App) (sent : List (Nat × Nat × L
     wants { a with targets := sent } c.1 c.2.1 c.2.2 ==
       (wants a c.1 c.2.1 c.2.2 && (first || !loaded a appId (core c.1 c.2.1 c.2.2)))
 
+/-- the machine reads the request as a signal (`send_signal`): SCP command `signal` with the
+nearest-neighbour message type; the count request (`count_cores_in_state`) is not one -/
+def isSignalPkt (r : Req) : Bool :=
+  match decode r with
+  | .signal _ _ _ => true
+  | _ => false
+
+/-- oracle on the requests of one `load_application` call (oldest first): if the call returned
+normally with `wait = False` (`started`) the last request is `send_signal("start", app_id)` and no
+other request is a signal packet; otherwise no request is a signal packet -/
+def startOnceOK (appId : Nat) (started : Bool) (reqs : List Req) : Bool :=
+  if started then reqs.getLast? == some (startReq appId) && reqs.dropLast.all (fun r => !isSignalPkt r)
+  else reqs.all (fun r => !isSignalPkt r)
+
 /-! ### line protocol -/
 open Lean Rig.P
 
@@ -590,6 +604,10 @@ def handle (op : String) (j : Json) : R Json := do
     let wf := wellFormedFill (← nat j "buf") (← nats j "image") (← nat j "app_id") (← nat j "flags") (reqs.map decode)
     let same := isFillPkts (← nat j "buf") (← nats j "image") (← nat j "app_id") (← nat j "flags") (reqs.map decode)
     pure (Json.mkObj [("ok", Json.bool (wf && same)), ("wf", Json.bool wf), ("same", Json.bool same)])
+  | "start_once" =>
+    -- oracle: all requests of the implementation's call, oldest first
+    pure (Json.mkObj [("ok", Json.bool (startOnceOK (← nat j "app_id") (← bool j "started")
+      (← (← arr j "reqs").mapM reqOfJson)))])
   | "regions_ok" =>
     let chips ← (← arr j "chips").mapM pairOfJson
     pure (Json.mkObj [("ok", Json.bool (regionsOK chips (← (← arr j "targets").mapM targetOfJson)
